@@ -6,6 +6,7 @@ import (
 	"fmt"
 	"go/constant"
 	"go/token"
+	"go/types"
 	"sort"
 	"strings"
 
@@ -191,139 +192,176 @@ func r03_2(c *Ctx, r *Report) {
 
 // ---------- R03.3 nearest-term search ----------
 
+// absMoment is a rendered civil moment known only by whose it is and how it was rendered.
+type absMoment struct{ who, kind string }
+
 func r03_3(c *Ctx, r *Report) {
 	const rule = "R03.3"
-	r.rule(rule, "Nearest-term search is 'latest <= / earliest >'. The loop body of getNearJieQi is turned into a decision table over forward in {T,F}, the order of (term, now) in {<,=,>}, best == nil, the order of (term, best) in {<,=,>}, and the filter: the best-so-far is replaced exactly when the term passes the filter and (forward and term > now and (nil or term < best)) or (not forward and term <= now and (nil or term > best)). All abstract cases are enumerated over all paths of the body.")
+	r.rule(rule, "Nearest-term search is 'latest <= / earliest >'. The loop body of getNearJieQi is read as a decision table over forward in {T,F}, wholeDay in {T,F}, the order of (term, now) in {<,=,>}, best == nil, the order of (term, best) in {<,=,>}, and the filter: the evaluator follows the branch conditions of the body (helpers inline, rendered moments as abstract values that can only be compared) for every abstract case; the best-so-far and its name are replaced, by the current term and its converted name, exactly when the term passes the filter and (forward and term > now and (nil or term < best)) or (not forward and term <= now and (nil or term > best)).")
 	fn := c.Fn(r, rule, "calendar.(*Lunar).getNearJieQi")
 	if fn == nil {
 		return
 	}
+	construct := "calendar.(*Lunar).getNearJieQi candidate selection"
+	if len(fn.Params) != 4 {
+		r.bad(rule, construct, c.fnPos(fn), "unexpected signature (undecided = fail)")
+		return
+	}
 	loops, _ := findLoops(fn)
 	var li *loopInfo
-	var nearPhi *ssa.Phi
+	var nearPhi, namePhi *ssa.Phi
 	for _, l := range loops {
+		var ptrs, strs []*ssa.Phi
 		for _, ins := range l.header.Instrs {
-			if phi, ok := ins.(*ssa.Phi); ok && phi.Comment == "near" {
-				li, nearPhi = l, phi
+			if phi, ok := ins.(*ssa.Phi); ok {
+				if structName(phi.Type()) == "Solar" {
+					ptrs = append(ptrs, phi)
+				} else if isStringType(phi.Type()) {
+					strs = append(strs, phi)
+				}
+			}
+		}
+		if len(ptrs) == 1 {
+			li, nearPhi = l, ptrs[0]
+			if len(strs) == 1 {
+				namePhi = strs[0]
 			}
 		}
 	}
-	construct := "calendar.(*Lunar).getNearJieQi candidate selection"
-	if li == nil {
-		r.bad(rule, construct, c.fnPos(fn), "the loop that carries the best-so-far term ('near') was not found (undecided = fail)")
+	if li == nil || namePhi == nil {
+		r.bad(rule, construct, c.fnPos(fn), "the loop that carries the best-so-far term and its name was not found (undecided = fail)")
 		return
 	}
-	// body entry: the in-loop successor of the header
 	var entry *ssa.BasicBlock
 	for _, s := range li.header.Succs {
 		if li.body[s] {
 			entry = s
 		}
 	}
-	paths, ok := enumPaths(entry, func(from, to *ssa.BasicBlock) bool { return to == li.header }, 512)
-	if !ok || entry == nil {
-		r.bad(rule, construct, c.fnPos(fn), "the loop body is not loop-free (undecided = fail)")
+	if entry == nil {
+		r.bad(rule, construct, c.fnPos(fn), "loop body not found (undecided = fail)")
 		return
-	}
-	for i := range paths {
-		paths[i].stopped = true
-	}
-	// classify the operands of the string comparisons by where the rendered Solar comes from
-	classify := func(v ssa.Value) string {
-		recvs := map[string]bool{}
-		var walk func(v ssa.Value, d int)
-		walk = func(v ssa.Value, d int) {
-			if d > 4 {
-				return
-			}
-			switch x := v.(type) {
-			case *ssa.Phi:
-				for _, e := range x.Edges {
-					walk(e, d+1)
-				}
-			case *ssa.Call:
-				if callee := x.Common().StaticCallee(); callee != nil && (callee.Name() == "ToYmd" || callee.Name() == "ToYmdHms") {
-					rv := x.Common().Args[0]
-					switch y := rv.(type) {
-					case *ssa.Phi:
-						if y == nearPhi {
-							recvs["best"] = true
-							return
-						}
-					case *ssa.Lookup:
-						recvs["term"] = true
-						return
-					}
-					if _, f, ok := getterField(c, rv); ok && f == "Lunar.solar" {
-						recvs["now"] = true
-						return
-					}
-					recvs["?"] = true
-				}
-			}
-		}
-		walk(v, 0)
-		if len(recvs) == 1 {
-			for k := range recvs {
-				return k
-			}
-		}
-		return "?"
 	}
 	type env struct {
 		forward, nilBest, filter, hit, whole bool
-		tn, tb                          int // term vs now, term vs best
+		tn, tb                               int // term vs now, term vs best
 	}
-	var problems []string
-	evalCond := func(p *cfgPath, cond ssa.Value, e env) (bool, bool) {
-		cond = p.resolve(cond)
-		if u, ok := cond.(*ssa.UnOp); ok && u.Op == token.NOT {
-			if prm, ok := u.X.(*ssa.Parameter); ok && prm.Name() == "forward" {
-				return !e.forward, true
-			}
+	problems := map[string]bool{}
+	mkLeaf := func(e env) leafX {
+		var leaf leafX
+		moment := func(fr *evalFrame, v ssa.Value) (absMoment, bool) {
+			o, ok := evalWith(fr, v, leaf)
+			m, isM := o.(absMoment)
+			return m, ok && isM
 		}
-		if prm, ok := cond.(*ssa.Parameter); ok {
-			switch prm.Name() {
-			case "forward":
-				return e.forward, true
-			case "wholeDay":
-				return e.whole, true
+		order := func(x, y absMoment) (int, bool) {
+			if x.kind != y.kind {
+				problems["a "+x.kind+" rendering is compared with a "+y.kind+" rendering"] = true
+				return 0, false
 			}
-		}
-		if x, y, op, ok := stringCompareAtom(cond); ok {
-			cx, cy := classify(x), classify(y)
 			switch {
-			case cx == "term" && cy == "now":
-				return cmpHolds(e.tn, op), true
-			case cx == "now" && cy == "term":
-				return cmpHolds(-e.tn, op), true
-			case cx == "term" && cy == "best":
-				return cmpHolds(e.tb, op), true
-			case cx == "best" && cy == "term":
-				return cmpHolds(-e.tb, op), true
+			case x.who == "term" && y.who == "now":
+				return e.tn, true
+			case x.who == "now" && y.who == "term":
+				return -e.tn, true
+			case x.who == "term" && y.who == "best":
+				return e.tb, true
+			case x.who == "best" && y.who == "term":
+				return -e.tb, true
 			}
-			return false, false
+			problems["a comparison of "+x.who+" with "+y.who] = true
+			return 0, false
 		}
-		if bo, ok := cond.(*ssa.BinOp); ok && (bo.Op == token.EQL || bo.Op == token.NEQ) {
-			isNil := func(v ssa.Value) bool { k, ok := v.(*ssa.Const); return ok && k.Value == nil }
-			if (isNil(bo.X) && bo.Y == ssa.Value(nearPhi)) || (isNil(bo.Y) && bo.X == ssa.Value(nearPhi)) {
-				return e.nilBest == (bo.Op == token.EQL), true
-			}
-		}
-		// filter := len(filters) > 0 ; filters[jq]
-		if bo, ok := cond.(*ssa.BinOp); ok && bo.Op == token.GTR {
-			if call, ok := bo.X.(*ssa.Call); ok {
-				if b, ok := call.Common().Value.(*ssa.Builtin); ok && b.Name() == "len" {
-					return e.filter, true
+		leaf = func(fr *evalFrame, v ssa.Value) (interface{}, bool) {
+			switch x := v.(type) {
+			case *ssa.Parameter:
+				if fr.parent == nil {
+					switch x {
+					case fn.Params[1]:
+						return e.forward, true
+					case fn.Params[3]:
+						return e.whole, true
+					}
+				}
+			case *ssa.Phi:
+				if x == nearPhi {
+					return absPtr{"best", e.nilBest}, true
+				}
+			case *ssa.Lookup:
+				if mt, ok := x.X.Type().Underlying().(*types.Map); ok {
+					if structName(mt.Elem()) == "Solar" {
+						return absPtr{"term", false}, true
+					}
+					if b, isB := mt.Elem().Underlying().(*types.Basic); isB && b.Kind() == types.Bool {
+						return e.hit, true
+					}
+				}
+			case *ssa.UnOp:
+				if rc, f, ok := getterField(c, x); ok && f == "Lunar.solar" {
+					if ofr, o := fr.origin(rc); o == ssa.Value(fn.Params[0]) && ofr.parent == nil {
+						return absPtr{"now", false}, true
+					}
+				}
+			case *ssa.BinOp:
+				if isStringType(x.X.Type()) && isStringType(x.Y.Type()) {
+					mx, ok1 := moment(fr, x.X)
+					my, ok2 := moment(fr, x.Y)
+					if ok1 && ok2 {
+						if rel, ok := order(mx, my); ok {
+							return cmpHolds(rel, x.Op), true
+						}
+					}
+					return nil, false
+				}
+			case *ssa.Call:
+				if b, ok := x.Common().Value.(*ssa.Builtin); ok && b.Name() == "len" {
+					if _, isMap := x.Common().Args[0].Type().Underlying().(*types.Map); isMap {
+						if e.filter {
+							return int64(1), true
+						}
+						return int64(0), true
+					}
+				}
+				callee := x.Common().StaticCallee()
+				if callee == nil {
+					return nil, false
+				}
+				switch fname(callee) {
+				case "calendar.(*Solar).ToYmd", "calendar.(*Solar).ToYmdHms":
+					o, ok := evalWith(fr, x.Common().Args[0], leaf)
+					ptr, isP := o.(absPtr)
+					if !ok || !isP {
+						return nil, false
+					}
+					if ptr.isNil {
+						problems["the best-so-far is rendered while it is nil"] = true
+						return nil, false
+					}
+					return absMoment{ptr.tag, strings.TrimPrefix(callee.Name(), "To")}, true
+				case "calendar.(*Solar).GetSolar", "calendar.(*Lunar).GetSolar":
+					if _, f, ok := getterField(c, x); ok && f == "Lunar.solar" {
+						if ofr, o := fr.origin(x.Common().Args[0]); o == ssa.Value(fn.Params[0]) && ofr.parent == nil {
+							return absPtr{"now", false}, true
+						}
+					}
+				}
+				if callee.String() == "strings.Compare" {
+					mx, ok1 := moment(fr, x.Common().Args[0])
+					my, ok2 := moment(fr, x.Common().Args[1])
+					if ok1 && ok2 {
+						if rel, ok := order(mx, my); ok {
+							return int64(rel), true
+						}
+					}
+					return nil, false
 				}
 			}
+			return nil, false
 		}
-		if _, ok := cond.(*ssa.Lookup); ok {
-			return e.hit, true
-		}
-		return false, false
+		return leaf
 	}
-	cases, checked := 0, 0
+	cases := 0
+	rel := map[int]string{-1: "<", 0: "=", 1: ">"}
 	for _, fwd := range []bool{false, true} {
 		for _, tn := range []int{-1, 0, 1} {
 			for _, nb := range []bool{false, true} {
@@ -338,46 +376,33 @@ func r03_3(c *Ctx, r *Report) {
 							}
 							for _, whole := range []bool{false, true} {
 								e := env{forward: fwd, nilBest: nb, filter: flt, hit: hit, whole: whole, tn: tn, tb: tb}
+								ev := &evaluator{leaf: mkLeaf(e), inline: inlineLibrary}
+								fr := &evalFrame{fn: fn, phiFrom: map[*ssa.BasicBlock]*ssa.BasicBlock{entry: li.header}}
+								_, outcome := ev.runFrame(fr, entry, func(b *ssa.BasicBlock) bool { return b == li.header })
+								if outcome != fmt.Sprintf("stop:%d", li.header.Index) {
+									problems["the loop body could not be followed: "+outcome+" "+ev.fail] = true
+									continue
+								}
 								cases++
-								feasible := 0
-								updated := false
-								for pi := range paths {
-									p := &paths[pi]
-									okp := true
-									for _, pc := range p.conds {
-										v, known := evalCond(p, pc.cond, e)
-										if !known {
-											problems = append(problems, "unclassified branch condition: "+pc.cond.String())
-											okp = false
-											break
-										}
-										if v != pc.truth {
-											okp = false
-											break
-										}
-									}
-									if !okp {
-										continue
-									}
-									feasible++
-									nv := p.resolve(nearPhiEdgeFrom(nearPhi, p))
-									updated = nv != ssa.Value(nearPhi)
-									if updated {
-										if _, isLookup := nv.(*ssa.Lookup); !isLookup {
-											problems = append(problems, "the best-so-far is replaced by something other than the current term")
-										}
+								nv := fr.resolve(nearPhi)
+								updated := nv != ssa.Value(nearPhi)
+								if updated {
+									if _, isLookup := nv.(*ssa.Lookup); !isLookup {
+										problems["the best-so-far is replaced by something other than the current term"] = true
 									}
 								}
-								if feasible != 1 {
-									problems = append(problems, fmt.Sprintf("case %+v selects %d paths", e, feasible))
-									continue
+								nm := fr.resolve(namePhi)
+								if (nm != ssa.Value(namePhi)) != updated {
+									problems["the name is replaced without the term (or the term without the name)"] = true
+								} else if updated {
+									if call, ok := nm.(*ssa.Call); !ok || call.Common().StaticCallee() == nil || fname(call.Common().StaticCallee()) != "calendar.convertJieQi" {
+										problems["the name kept with the best-so-far is not the converted name of the current term"] = true
+									}
 								}
 								passes := !flt || hit
 								want := passes && ((fwd && tn > 0 && (nb || tb < 0)) || (!fwd && tn <= 0 && (nb || tb > 0)))
-								checked++
 								if updated != want {
-									rel := map[int]string{-1: "<", 0: "=", 1: ">"}
-									problems = append(problems, fmt.Sprintf("forward=%v term%snow best-nil=%v term%sbest: replaced=%v, required %v", fwd, rel[tn], nb, rel[tb], updated, want))
+									problems[fmt.Sprintf("forward=%v term%snow best-nil=%v term%sbest: replaced=%v, required %v", fwd, rel[tn], nb, rel[tb], updated, want)] = true
 								}
 							}
 						}
@@ -386,9 +411,12 @@ func r03_3(c *Ctx, r *Report) {
 			}
 		}
 	}
-	sort.Strings(problems)
-	problems = dedupe(problems)
-	r.check(len(problems) == 0 && checked >= 48, rule, construct, c.fnPos(fn), fmt.Sprintf("%d abstract cases over %d body paths; %s", checked, len(paths), strings.Join(headList(problems, 4), "; ")))
+	var ps []string
+	for k := range problems {
+		ps = append(ps, k)
+	}
+	sort.Strings(ps)
+	r.check(len(ps) == 0 && cases >= 48, rule, construct, c.fnPos(fn), fmt.Sprintf("%d abstract cases followed through the loop body; %s", cases, strings.Join(headList(ps, 4), "; ")))
 }
 
 func dedupe(xs []string) []string {
